@@ -11,7 +11,7 @@ ENGINE = "E2 detgrid"
 TECHNIQUE = ("Hypothesis-generated publish histories (up to 6 versions) with generated offline sets per publish and server-side replays of older shares, then surveys and reads "
              "with generated offline sets and delivery schedules; wire-level observation of every share header a client was shown; oracles: new seqnum > every seqnum the "
              "publisher's survey was shown, the survey's best version = highest-seqnum version with k distinct shares among the answers it processed, the survey asked every "
-             "reachable server whenever it was shown a newer version it could not recover, retrieved contents = contents published under that seqnum")
+             "reachable server whenever it was shown a newer version it could not recover, retrieved contents = contents published under that seqnum; plain download_best_version under server drop-outs with surveys delimited by observing ServermapUpdater.update")
 RULE = ("each case: SDMF/MDMF, k<=3, N<=6 on N..N+2 servers; a writer performs 2-6 steps, each a publish (overwrite, or for MDMF an in-place update of the best version found) while a drawn subset of servers is offline, or a replay "
         "(the harness copies a server's share files of an older version back); then 1-3 reader surveys (MODE_READ servermap update + retrieval of its best version + a plain "
         "download_best_version) by fresh clients, each with its own offline set and schedule.  The plain download_best_version runs under server drop-outs (a server "
